@@ -262,7 +262,7 @@ class FaultServer(Server):
 ACCEPT_EXC = (ProtocolError, IncompleteRead, DecodeError)
 
 
-def run_program(prog, head, wire, chunked, keep_open=False):
+def run_program(prog, head, wire, chunked, keep_open=False, dc=True):
     """-> dict(outcome='completed'|'raised'|'skip', exc, pieces, second=...)"""
     net = Net(FaultServer(head + wire, keep_open))
     res = {"outcome": None, "exc": None, "pieces": b"", "second": None}
@@ -272,21 +272,21 @@ def run_program(prog, head, wire, chunked, keep_open=False):
         kind = prog[0]
         try:
             if kind == "preload":
-                r = pool.urlopen("GET", "/1", preload_content=True, decode_content=True)
+                r = pool.urlopen("GET", "/1", preload_content=True, decode_content=dc)
                 pieces += r.data or b""
             else:
-                r = pool.urlopen("GET", "/1", preload_content=False, decode_content=True)
+                r = pool.urlopen("GET", "/1", preload_content=False, decode_content=dc)
                 if kind == "read":
-                    pieces += r.read(decode_content=True)
+                    pieces += r.read(decode_content=dc)
                 elif kind == "readn":
                     while True:
-                        d = r.read(prog[1], decode_content=True)
+                        d = r.read(prog[1], decode_content=dc)
                         if not d:
                             break
                         pieces += d
                 elif kind == "read1n":
                     while True:
-                        d = r.read1(prog[1], decode_content=True) if prog[1] is not None else r.read1(decode_content=True)
+                        d = r.read1(prog[1], decode_content=dc) if prog[1] is not None else r.read1(decode_content=dc)
                         if not d:
                             break
                         pieces += d
@@ -298,13 +298,13 @@ def run_program(prog, head, wire, chunked, keep_open=False):
                             break
                         pieces += buf[:k]
                 elif kind == "stream":
-                    for d in r.stream(prog[1], decode_content=True):
+                    for d in r.stream(prog[1], decode_content=dc):
                         pieces += d
                 elif kind == "read_chunked":
                     if not chunked:
                         res["outcome"] = "skip"
                         return res, net
-                    for d in r.read_chunked(prog[1], decode_content=True):
+                    for d in r.read_chunked(prog[1], decode_content=dc):
                         pieces += d
                 elif kind == "iter":
                     for d in r:
@@ -317,16 +317,16 @@ def run_program(prog, head, wire, chunked, keep_open=False):
                 elif kind == "prefix":
                     for call in prog[1:]:
                         if call[0] == "read":
-                            d = r.read(call[1], decode_content=True) if call[1] is not None else r.read(decode_content=True)
+                            d = r.read(call[1], decode_content=dc) if call[1] is not None else r.read(decode_content=dc)
                         elif call[0] == "read1":
-                            d = r.read1(call[1], decode_content=True)
+                            d = r.read1(call[1], decode_content=dc)
                         elif call[0] == "readinto":
                             buf = bytearray(call[1])
                             k = r.readinto(buf)
                             d = bytes(buf[:k or 0])
                         pieces += d
                     while True:
-                        d = r.read(64, decode_content=True)
+                        d = r.read(64, decode_content=dc)
                         if not d:
                             break
                         pieces += d
@@ -357,13 +357,15 @@ def run_program(prog, head, wire, chunked, keep_open=False):
     return res, net
 
 
-def judge(spec, fault, prog, verdict, acceptable, data, res, net, keep_open=False):
+def judge(spec, fault, prog, verdict, acceptable, data, res, net, keep_open=False, dc=True):
     """-> list of (clause, sig, observed, expected)"""
     out = []
     size, coding, fr = spec
     sig = {"coding": coding, "framing": fr, "fault": fault[0], "program": prog[0]}
     if keep_open:
         sig["peer"] = "keeps-open"
+    if not dc:
+        sig["decode_content"] = False
     if fault[0] == "sizeline":
         sig["rep"] = fault[2].decode("latin-1")
     oc = res["outcome"]
@@ -407,6 +409,7 @@ def _task(t):
     spec, thorough = t
     acc = Acc()
     chunked = spec[2] != "cl"
+    coding = spec[1]
     for fault, head, wire, verdict, acceptable, data in faults(spec, thorough):
         acc.counters["faulty_inputs"] += 1
         acc.counters["verdict:" + verdict] += 1
@@ -419,6 +422,16 @@ def _task(t):
             acc.outcomes[(verdict, res["outcome"], type(res["exc"]).__name__ if res["exc"] else None)] += 1
             for clause, sig, obs, exp in judge(spec, fault, prog, verdict, acceptable, data, res, net):
                 acc.violation(clause, sig, {"spec": list(spec), "fault": list(fault), "prog": list(prog)}, observed=obs, expected=exp)
+            if fault[0] in ("cut", "sizeline") and coding == "identity":
+                # the same broken framing when the caller asked for the raw bytes (decode_content=False with the request,
+                # the way wrappers that decode themselves drive urllib3): the framing rules do not depend on that option
+                res, net = run_program(prog, head, wire, chunked, dc=False)
+                acc.n += 1
+                acc.counters["raw_bytes_runs"] += 1
+                acc.outcomes[(verdict + "/raw", res["outcome"], type(res["exc"]).__name__ if res["exc"] else None)] += 1
+                for clause, sig, obs, exp in judge(spec, fault, prog, verdict, acceptable, data, res, net, dc=False):
+                    acc.violation(clause, sig, {"spec": list(spec), "fault": list(fault), "prog": list(prog), "dc": False},
+                                  observed=obs, expected=exp)
             if fault[0] != "cut" and verdict == "bad":
                 # the same corrupt response from a peer that keeps the connection open afterwards
                 res, net = run_program(prog, head, wire, chunked, keep_open=True)
@@ -469,8 +482,9 @@ def replay(case):
         raise HarnessError("fault not found in enumeration: %r" % (fault,))
     flt, head, wire, verdict, acceptable, data = found
     ko = bool(case.get("keep_open"))
-    res, net = run_program(prog, head, wire, spec[2] != "cl", keep_open=ko)
-    for clause, sig, obs, exp in judge(spec, flt, prog, verdict, acceptable, data, res, net, keep_open=ko):
+    dc = case.get("dc", True)
+    res, net = run_program(prog, head, wire, spec[2] != "cl", keep_open=ko, dc=dc)
+    for clause, sig, obs, exp in judge(spec, flt, prog, verdict, acceptable, data, res, net, keep_open=ko, dc=dc):
         acc.violation(clause, sig, case, observed=obs, expected=exp)
     return {"verdict": verdict, "outcome": res["outcome"], "exc": repr(res["exc"])[:200] if res["exc"] else None,
             "delivered": res["pieces"], "second": res["second"], "wire": head + wire, "violations": acc.viol}
